@@ -10,8 +10,9 @@ EXTENDS TextParse, Json, IOUtils
 Recs == ndJsonDeserialize(IOEnv.TRACE)
 NRecs == Len(Recs)
 VARIABLES l, nviol,
-          canon      \* the last canonical record seen and whether each entry point accepted it: <<cp, ok0, ok1, ok2>>
-vars == <<l, nviol, canon>>
+          canon,     \* the last canonical record seen and whether each entry point accepted it: <<cp, ok0, ok1, ok2>>
+          base       \* the last builder state that is the image of an accepted board and was accepted again (or <<>>)
+vars == <<l, nviol, canon, base>>
 IF_(c, S) == IF c THEN S ELSE {}
 IsEvent(e) == l <= NRecs /\ Recs[l].ev = e /\ l' = l + 1
 Rep(ms) == IF ms = {} THEN TRUE ELSE PrintT(<<"MISMATCH", l, ms>>)
@@ -23,11 +24,20 @@ BsOf(x) == [b |-> ToB(x.b), stm |-> x.stm, cr |-> x.cr, epsq |-> x.epsq, hmc |->
 ScharnaglT == [n \in 0..959 |-> Scharnagl(n)]
 
 (* ------------------------------- builder ------------------------------- *)
+\* the aspects in which two builder states differ (placement and side to move form one aspect)
+AspectDiff(x, y) == (IF x.b # y.b \/ x.stm # y.stm THEN {"board"} ELSE {}) \cup (IF x.cr # y.cr THEN {"rights"} ELSE {})
+                    \cup (IF x.epsq # y.epsq THEN {"ep"} ELSE {}) \cup (IF x.hmc # y.hmc THEN {"hmc"} ELSE {}) \cup (IF x.fmn # y.fmn THEN {"fmn"} ELSE {})
 TraceBuild == /\ IsEvent("build") /\ UNCHANGED canon
   /\ LET r == Recs[l]  bs == BsOf(r.bs)  ok == r.k = "ok"
          wrong == WrongAspects(bs)
          expr == Expressible(bs)
-     IN Obs(
+         \* "exactly one aspect of an otherwise valid state is wrong": the state differs from an accepted state in
+         \* exactly one aspect, and that aspect (and no other) violates a clause of the soundness statement.
+         \* (A changed placement that is sound by those clauses but trips a library-specific rule -- three checkers,
+         \*  ep file versus checkers -- is not claimed: which aspect is "wrong" there is the library's own call.)
+         diff == IF base = <<>> THEN {} ELSE AspectDiff(bs, base)
+         oneAspect == Cardinality(diff) = 1 /\ wrong = diff
+         ms ==
         IF_(r.k = "panic", {<<"C09", "build-panicked", r.gen>>})
         \* soundness: what is handed out is structurally sound and is the state that was asked for
         \cup IF_(ok /\ ~ValidBs(bs), {<<"C06", "builder-accepts-unsound-state", r.gen, wrong, Broken(AsPos(bs))>>})
@@ -42,11 +52,14 @@ TraceBuild == /\ IsEvent("build") /\ UNCHANGED canon
         \cup IF_(expr /\ r.pp.k # "panic" /\ r.k # "panic" /\ ok # (r.pp.k = "ok"), {<<"C09", "builder-and-fromstr-disagree", r.gen, r.k, r.err, r.pp.k, r.pp.err, r.text>>})
         \cup IF_(expr /\ ok /\ r.pp.k = "ok" /\ (r.pp.st # r.st \/ ~r.pp.eq), {<<"C09", "builder-and-fromstr-boards-differ", r.gen, r.text>>})
         \* exactly one aspect wrong: the error names it
-        \cup IF_(Cardinality(wrong) = 1 /\ (r.k # "err" \/ r.err # AspectError(CHOOSE a \in wrong : TRUE)),
-                 {<<"C09", "build-error-names-wrong-aspect", r.gen, wrong, r.k, r.err>>})
+        \cup IF_(oneAspect /\ r.k = "err" /\ r.err # AspectError(CHOOSE a \in diff : TRUE),
+                 {<<"C09", "build-error-names-wrong-aspect", r.gen, diff, r.k, r.err>>})
+        \cup IF_(oneAspect /\ r.k = "ok", {<<"C09", "state-with-a-wrong-aspect-accepted", r.gen, diff>>})
         \* accepted boards round-trip through the builder
         \cup IF_(ok /\ (r.rb.k # "ok" \/ ~r.rb.eq), {<<"C09", "from-board-round-trip", r.gen, r.rb.k>>})
-        \cup IF_(r.gen = "accepted" /\ ~ok, {<<"C09", "builder-image-of-accepted-board-rejected", r.err>>}))
+        \cup IF_(r.gen = "accepted" /\ ~ok, {<<"C09", "builder-image-of-accepted-board-rejected", r.err>>})
+     IN /\ base' = IF r.gen = "accepted" THEN (IF ok THEN bs ELSE <<>>) ELSE base
+        /\ Obs(ms)
 
 (* -------------------------------- parser -------------------------------- *)
 \* checks of one entry point (mode 0 from_fen(.., false), 1 from_fen(.., true), 2 FromStr) on one text
@@ -96,6 +109,7 @@ TraceParse == /\ IsEvent("parse")
                \cup IF_(isCanon /\ must1 /\ r.res[2].k # "ok", {<<"C08", "canonical-shredder-record-rejected", r.res[2].err, r.t>>})
                \cup IF_(isCanon /\ must2 /\ r.res[3].k # "ok", {<<"C08", "plain-parsing-rejects-canonical-record", r.res[3].err, r.t>>})
                \cup IF_(isCanon /\ ~(must0 \/ must1), {<<"EXT", "harness-canonical-record-not-canonical", r.t>>}))
+        /\ UNCHANGED base
         /\ canon' = IF isCanon THEN <<r.cp, must0 /\ r.res[1].k = "ok", must1 /\ r.res[2].k = "ok", must2 /\ r.res[3].k = "ok">> ELSE canon
 
 (* ------------------------- start-position constructors ------------------------- *)
@@ -104,20 +118,20 @@ StartT(w, k) ==
   [b |-> [s \in Sq |-> CASE RankOf(s) = 0 -> Mk(0, aw[FileOf(s)]) [] RankOf(s) = 1 -> Mk(0, PAWN)
                          [] RankOf(s) = 6 -> Mk(1, PAWN) [] RankOf(s) = 7 -> Mk(1, ab[FileOf(s)]) [] OTHER -> 0],
    stm |-> 0, cr |-> <<rw[2], rw[1], rb[2], rb[1]>>, ep |-> -1, hmc |-> 0, fmn |-> 1]
-TraceStart == /\ IsEvent("start") /\ UNCHANGED canon
+TraceStart == /\ IsEvent("start") /\ UNCHANGED <<canon, base>>
   /\ LET r == Recs[l]  exp == StartT(r.w, r.k) IN
      Obs(IF_(r.res # "ok", {<<"C06", "start-constructor-panicked", r.w, r.k>>})
          \cup IF_(r.res = "ok" /\ PosOf(r.st) # exp, {<<"C06", "start-position", r.w, r.k>>})
          \cup IF_(r.res = "ok" /\ (Len(r.st.chk) # 0 \/ Len(r.st.pin) # 0), {<<"C03", "start-derived-state", r.w, r.k>>})
          \cup IF_(r.res = "ok" /\ ~r.reparse, {<<"C06", "start-position-not-reaccepted-as-text", r.w, r.k>>})
          \cup IF_(r.res = "ok" /\ ~r.rebuild, {<<"C06", "start-position-not-reaccepted-by-builder", r.w, r.k>>}))
-TraceStartOob == /\ IsEvent("start_oob") /\ UNCHANGED canon
+TraceStartOob == /\ IsEvent("start_oob") /\ UNCHANGED <<canon, base>>
   /\ Obs(IF_(~Recs[l].panicked, {<<"EXT", "scharnagl-out-of-range-accepted", Recs[l].w, Recs[l].k>>}))
-TraceStartDefault == /\ IsEvent("start_default") /\ UNCHANGED canon
+TraceStartDefault == /\ IsEvent("start_default") /\ UNCHANGED <<canon, base>>
   /\ LET r == Recs[l] IN
      Obs(IF_(PosOf(r.default) # StartT(518, 518) \/ PosOf(r.startpos) # StartT(518, 518), {<<"EXT", "default-start-position">>}))
 
-Init == l = 1 /\ nviol = 0 /\ canon = <<<<>>, FALSE, FALSE, FALSE>>
+Init == l = 1 /\ nviol = 0 /\ canon = <<<<>>, FALSE, FALSE, FALSE>> /\ base = <<>>
 Next == TraceBuild \/ TraceParse \/ TraceStart \/ TraceStartOob \/ TraceStartDefault
 Spec == Init /\ [][Next]_vars
 Accepted == IF TLCGet("stats").diameter - 1 = NRecs THEN PrintT(<<"ACCEPTED-LINES", NRecs>>)
